@@ -264,6 +264,8 @@ fn render(site: Site, calls: &[Call], d: Dialect) -> String {
         Site::SelectWhere => {
             let mut q = Query::select().column(a("id")).from(a("tt")).to_owned();
             apply_where(&mut q, calls);
+            // the two documented ways of handing a finished statement on
+            let q = if crate::runner::fingerprint(calls) % 2 == 0 { q.take() } else { q };
             with_backend!(d, b => q.to_string(b))
         }
         Site::SelectHaving | Site::SelectHavingNoGroup => {
@@ -296,6 +298,7 @@ fn render(site: Site, calls: &[Call], d: Dialect) -> String {
                     },
                 }
             }
+            let q = if crate::runner::fingerprint(calls) % 2 == 0 { q.take() } else { q };
             with_backend!(d, b => q.to_string(b))
         }
         Site::UpdateWhere => {
